@@ -182,7 +182,7 @@ def run(ctx, B):
                 [dict(fn="Bragg_angle", args=[int(ci), float(cand_E[j])] + [int(x) for x in hb2[j]])])
         # ---- structure factors on a reduced Miller set
         Hm = np.array([h for h in itertools.product(np.arange(-2, 3) if quick else np.arange(-3, 4), repeat=3)])
-        DW = np.array([1.0, 0.8]); REL = np.array([1.0, 0.5])
+        DW = np.array([1.0, 0.8]); REL = np.array([1.0, 0.5, 0.0])       # rel_angle 0: zero scattering amplitude with non-zero Miller indices (phases still count)
         I, J, Kd, Lr = domains.product(np.arange(len(Hm)), np.arange(len(Es)), np.arange(len(DW)), np.arange(len(REL)))
         hh = Hm[I]; EE = Es[J]; dw = DW[Kd]; rel = REL[Lr]
         nq = len(I)
